@@ -26,6 +26,9 @@ try:
         reg = r.get('regress')
         if not reg or not os.path.exists('/verif/' + reg):
             out.append((r['property'], r['id'], r['commit'], 'NO-REPLAY')); continue
+        # later fix commits that rewrote the same lines are reverted first (field revert_with)
+        for extra in r.get('revert_with', []):
+            sh(f"git -C /repo show {extra} -- src | git -C {W} apply -R")
         a = sh(f"git -C /repo show {r['commit']} -- src | git -C {W} apply -R")
         if a.returncode != 0:
             out.append((r['property'], r['id'], r['commit'], 'REVERT-FAILED ' + a.stderr.strip()[:80])); sh(f"git -C {W} checkout -- ."); continue
